@@ -185,7 +185,21 @@ def eager_integrate(delta, integrand, reduced_vars):
         if name in reduced_names
     )
     new_integrand = Subs(integrand, subs)
-    new_log_measure = Subs(delta, subs)
+    # Evaluating the delta at its own points leaves the log densities of the
+    # integrated terms (and the remaining terms); note the points may be lazy.
+    new_log_measure = reduce(
+        ops.add,
+        [
+            log_density
+            for name, (point, log_density) in delta.terms
+            if name in reduced_names
+        ],
+    )
+    remaining_terms = tuple(
+        term for term in delta.terms if term[0] not in reduced_names
+    )
+    if remaining_terms:
+        new_log_measure = Subs(Delta(remaining_terms), subs) + new_log_measure
     result = Integrate(new_log_measure, new_integrand, reduced_vars - delta_fresh)
     return result
 
